@@ -1,8 +1,10 @@
 (* Mark_driver.ml — correspondence driver for the mark/sweep model (C01).
    stdin: one case per line, the script language of harness/gc_graph.c.
    argv[1] = model | spec | model:<tls_recurses><mar_guarded> (e.g. model:00 = both defects)
-   model:  per observation  "G m=<ids marked by the model's mark> a=<ids registered afterwards>"
-           or "M a=<ids>"; OUTOFFUEL / CRASH end the transcript
+   model:  per observation  "G m=<ids marked by the model's mark> a=<ids registered afterwards> h=<wxyz>"
+           (h: the hypotheses wf, raw_wf, range_ok, order_ok of the theorems evaluated by the extracted
+           checkers on the state the collection runs in, 1 = holds) or "M a=<ids>";
+           OUTOFFUEL / CRASH end the transcript
    spec:   per observation  "G r=<ids of registered nodes reachable>" (executable closure
            reach_exec, nothing is ever collected on this side) *)
 let addr id = n_of_int (4096 + 16 * id)
@@ -63,11 +65,28 @@ let run mode line =
   let reach () =
     let r = gm_reach !sheap !sreg (List.rev !sorder) (gm_tls (tls_vals ())) (stack_words ()) in
     List.filter (fun i -> Hashtbl.mem nodes i) (List.map id_of_addr r) in
+  (* rank of raw objects: length of the longest chain of raw objects through Tuple items below *)
+  let rank_memo : (int, int) Hashtbl.t = Hashtbl.create 16 in
+  let rec rank id =
+    match Hashtbl.find_opt nodes id with
+    | None -> 0
+    | Some nd when is_reg nd.k -> 0
+    | Some nd ->
+      (match Hashtbl.find_opt rank_memo id with
+       | Some r -> r
+       | None ->
+         Hashtbl.replace rank_memo id 0;
+         let r = if nd.k = 'u' then
+             List.fold_left (fun acc t -> match Hashtbl.find_opt nodes t with
+                 | Some tn when not (is_reg tn.k) -> max acc (1 + rank t) | _ -> acc) 0 nd.items
+           else 0 in
+         Hashtbl.replace rank_memo id r; r) in
   let ints s = List.map int_of_string (List.filter (fun x -> x <> "")
                  (String.split_on_char ' ' (String.map (fun c -> if (c >= '0' && c <= '9') then c else ' ') s))) in
   (try
     List.iter (fun tok ->
       if tok <> "" then begin
+        Hashtbl.reset rank_memo;
         let rest = String.sub tok 1 (String.length tok - 1) in
         match tok.[0] with
         | 'N' ->
@@ -87,6 +106,19 @@ let run mode line =
           end else store id;
           Hashtbl.replace stack id ();
           roots ()
+        | 'C' -> (match ints rest with
+            | [id; src] ->
+              let sn = Hashtbl.find nodes src in
+              let nd = { k = sn.k; root = false; f = Array.copy sn.f; items = sn.items; kv = sn.kv } in
+              Hashtbl.replace nodes id nd;
+              if spec then begin
+                sheap := gm_nset (addr id) (contents nd) !sheap;
+                sreg := gm_nset (addr id) false !sreg;
+                sorder := addr id :: !sorder
+              end else do_step (EAlloc (addr id, contents nd, false));
+              Hashtbl.replace stack id ();
+              roots ()
+            | _ -> failwith "C")
         | 'P' -> (match ints rest with
             | [id; i; t] -> (Hashtbl.find nodes id).f.(i) <- t; store id
             | _ -> failwith "P")
@@ -127,8 +159,10 @@ let run mode line =
             let m = match gm_mark tr mg !st with
               | Ok m -> m | Crash -> raise (Stop "CRASH") | OutOfFuel -> raise (Stop "OUTOFFUEL") in
             let mk = List.filter (fun i -> gm_marked m (addr i)) (node_ids ()) in
+            let (((h1, h2), h3), h4) = gm_hyp !st (fun a -> nat_of_int (rank (id_of_addr a))) in
+            let b x = if x then "1" else "0" in
             do_step ECollect;
-            obs (String.make 1 tok.[0]) (" m=" ^ ids_s mk ^ " a=" ^ ids_s (alive ()))
+            obs (String.make 1 tok.[0]) (" m=" ^ ids_s mk ^ " a=" ^ ids_s (alive ()) ^ " h=" ^ b h1 ^ b h2 ^ b h3 ^ b h4)
           end
         | 'M' ->
           let n = List.hd (ints rest) in
